@@ -64,7 +64,7 @@ def mkscript(script):
 # ---------------------------------------------------------------------------------------------
 # user callables (mirrors Driver/Tools.lean parseFn)
 
-FLAVOURS = ("def", "async", "partial", "obj", "objx")
+FLAVOURS = ("def", "async", "partial", "obj", "objx", "cls", "bound")
 
 
 def _key(v):
@@ -155,6 +155,22 @@ def make_fn(spec, idx, log, flavour="def", stop_cls=StopAsyncIteration):
                     return body(args)
                 return co()
         return ObjX()
+    if flavour == "cls":
+        # a CLASS used as the callable: its instances are awaitable (an object whose call returns an awaitable)
+        class AwaitableResult:
+            def __init__(self, *args):
+                self.args = args
+
+            def __await__(self):
+                yield from pre().__await__()
+                return body(self.args)
+        return AwaitableResult
+    if flavour == "bound":
+        class Holder:
+            async def meth(self, *args):
+                await pre()
+                return body(args)
+        return Holder().meth
     if flavour == "obj":
         class Obj:
             def __len__(self):       # falsy by way of an empty container protocol (e.g. a registry that is callable)
